@@ -267,6 +267,8 @@ type Interp struct {
 	predCalls  []predCall
 	recN       int
 	callNames  []string
+	intEq      map[string]int          // facts about symbolic integers (e.g. a type's Kind()) learnt from decisions on this path
+	intNe      map[string]map[int]bool //
 	active     map[*ast.FuncDecl][]string // type-argument identity of the active calls, per function (progress check)
 	g9mode     bool // tabulating a predicate: helper predicates are interpreted, only recursive calls are answered by the oracle
 }
@@ -456,7 +458,48 @@ func (in *Interp) truth(v Value) bool {
 	if b.Known {
 		return b.V
 	}
-	return in.decide("B:"+b.Sym, 2) == 0
+	res := in.decide("B:"+b.Sym, 2) == 0
+	if m := intCmpRe.FindStringSubmatch(b.Sym); m != nil {
+		n, _ := strconv.Atoi(m[3])
+		in.learnInt(m[1], n, (m[2] == "==") == res)
+	}
+	return res
+}
+
+var intCmpRe = regexp.MustCompile(`^(.*[^=!<>])(==|!=)(-?\d+)$`)
+
+// intFact: is the symbolic integer known to be equal / unequal to the constant on this path?
+func (in *Interp) intFact(x, y VInt) (equal bool, known bool) {
+	if x.Known {
+		x, y = y, x
+	}
+	if x.Known || !y.Known || x.Sym == "" {
+		return false, false
+	}
+	if v, ok := in.intEq[x.Sym]; ok {
+		return v == y.V, true
+	}
+	if in.intNe[x.Sym][y.V] {
+		return false, true
+	}
+	return false, false
+}
+
+func (in *Interp) learnInt(sym string, n int, equal bool) {
+	if equal {
+		if in.intEq == nil {
+			in.intEq = map[string]int{}
+		}
+		in.intEq[sym] = n
+		return
+	}
+	if in.intNe == nil {
+		in.intNe = map[string]map[int]bool{}
+	}
+	if in.intNe[sym] == nil {
+		in.intNe[sym] = map[int]bool{}
+	}
+	in.intNe[sym][n] = true
 }
 
 func (in *Interp) info(fr *Frame) *types.Info { return fr.pkg.TypesInfo }
@@ -881,6 +924,7 @@ func (in *Interp) stmt(fr *Frame, s ast.Stmt) (ctl, Value) {
 		var def *ast.CaseClause
 		var flat []*ast.CaseClause
 		var conds []Value
+		var caseVals []Value
 		allUnknown := tag != nil
 		for _, c := range v.Body.List {
 			cc := c.(*ast.CaseClause)
@@ -891,8 +935,11 @@ func (in *Interp) stmt(fr *Frame, s ast.Stmt) (ctl, Value) {
 			for _, e := range cc.List {
 				var cond Value
 				if tag != nil {
-					cond = in.binop(token.EQL, tag, in.eval(sub, e), origin(tag)+"=="+types.ExprString(e))
+					cv := in.eval(sub, e)
+					caseVals = append(caseVals, cv)
+					cond = in.binop(token.EQL, tag, cv, origin(tag)+"=="+types.ExprString(e))
 				} else {
+					caseVals = append(caseVals, nil)
 					cond = in.eval(sub, e)
 				}
 				if b, ok := cond.(VBool); !ok || b.Known {
@@ -918,6 +965,19 @@ func (in *Interp) stmt(fr *Frame, s ast.Stmt) (ctl, Value) {
 			}
 			cands = append(cands, "default")
 			pick := in.decideC("S:"+origin(tag)+"#"+fmt.Sprint(len(flat))+"@"+in.switchID(v), len(flat)+1, cands)
+			if ti, ok := tag.(VInt); ok && !ti.Known && ti.Sym != "" {
+				if pick < len(flat) {
+					if cv, ok := caseVals[pick].(VInt); ok && cv.Known {
+						in.learnInt(ti.Sym, cv.V, true)
+					}
+				} else {
+					for _, c := range caseVals {
+						if cv, ok := c.(VInt); ok && cv.Known {
+							in.learnInt(ti.Sym, cv.V, false)
+						}
+					}
+				}
+			}
 			if pick < len(flat) {
 				return run(flat[pick])
 			}
@@ -1110,6 +1170,11 @@ func (in *Interp) binop(op token.Token, a, b Value, sym string) Value {
 				return VBool{Known: true, V: x.V > y.V}
 			case token.GEQ:
 				return VBool{Known: true, V: x.V >= y.V}
+			}
+		}
+		if op == token.EQL || op == token.NEQ {
+			if r, ok := in.intFact(x, y); ok {
+				return VBool{Known: true, V: r == (op == token.EQL)}
 			}
 		}
 		switch op {
